@@ -51,8 +51,15 @@ def check_filter_table(ctx):
         ref = mk_fn('at', B(new, mk_fn('compress', L(new), B(T_, base), B(T_, member))), P(rank))
         compare(ctx, 'PERM-9', 'filter_table column %s' % c, where_, out.cols.get(c), ref, (R_,), vocab={'tname', 'p1', 'mname', 'chi2', 'av', 'sc', 'model_id'}, fns={'isin', 'compress'}, findings=I.findings,
                 detail_ok='col[isin(table names, fit names)][argsort(argsort(fit names))]')
-    guards = [a for a in I.assumed if a[4] == 'raise-guard' and 'model_name' in a[2] and 'MODEL_NAME' in a[2] and '==' in a[2]]
-    ctx.expect(bool(guards), 'CFG-6', 'filter_table post-check', where_, 'raises unless the returned names equal the fit\'s names in order', 'no raising post-check on the names', 'post-check')
+    from ..fitmodel import guard_requires
+    got_names = out.cols.get('MODEL_NAME')
+    cands = []
+    if isinstance(got_names, Arr):
+        for lhs in (got_names.poly, mk_fn('strip', P(got_names.poly))):
+            for rhs in (sym('mname', R_), mk_fn('strip', P(sym('mname', R_)))):
+                cands.append(mk_fn('all', B(R_, alg.eq(lhs, rhs))))
+    okg, seen = guard_requires(I, cands)
+    ctx.expect(okg, 'CFG-6', 'filter_table post-check', where_, 'raises unless the returned names equal the fit\'s names in order', 'no raising post-check on the names (guards: %s)' % seen, 'post-check')
     # additional parameters keyed by name
     ok = False
     for n in walk_local(ft.node):
